@@ -1,6 +1,7 @@
 (* C03 — proofs: the channel clock invariant over every history of the reader model, and soundness of the checker *)
 From Coq Require Import List String NArith ZArith Bool Arith Lia Permutation Sorting.Sorted.
 From Verif Require Import Base.Util Reader.Model Reader.Script Reader.Proofs C03.Check.
+From Verif Require Import Reader.Forget.
 Import ListNotations.
 Local Open Scope string_scope.
 Local Open Scope N_scope.
@@ -143,10 +144,15 @@ Proof.
   - apply (fold_left_pres _ out). intros s0 [[c p] b]. destruct (_ && _); reflexivity.
 Qed.
 
-Lemma CInv_fire s : CInv s -> CInv (fire_pbars (fire_cbars s)).
+Lemma CInv_fire0 s : CInv s -> CInv (fire_pbars (fire_cbars s)).
 Proof.
   intros I. destruct (fire_cbars_frame s) as [A B]. destruct (fire_pbars_frame (fire_cbars s)) as [C D].
   apply (CInv_ext s); [congruence|congruence|exact I].
+Qed.
+Lemma CInv_fire l b s : CInv s -> CInv (forget_fired l b (fire_pbars (fire_cbars s))).
+Proof.
+  intros I. pose proof (forget_fired_frame l b (fire_pbars (fire_cbars s))) as F. unfold same_but_heap in F.
+  apply (CInv_ext (fire_pbars (fire_cbars s))); [apply F | apply F | now apply CInv_fire0].
 Qed.
 
 (* ---------- how the clocks move ---------- *)
